@@ -118,13 +118,37 @@ def strip_g(s):
     return strip_generics(s)
 
 
+def seconds_saturation(ctx):
+    """NtpDuration::from_seconds (shared with C38): the whole seconds are shifted into the upper 32 bits only when they fit an i32; everything
+    else saturates. Accepted proofs of `fits`: i32::try_from(i) is Ok, or i <= 2147483647 (i < 2147483648) together with i >= -2147483648."""
+    b = ctx.P.body('ntp_proto::time_types::NtpDuration::from_seconds')
+    shl = []
+    for j, blk in enumerate(b.blocks):
+        for st in blk['stmts']:
+            if st['k'] == 'assign' and st['rv'].get('k') == 'binop' and st['rv'].get('op') in ('Shl', 'ShlUnchecked') and const_int(b.operand_term(st['rv']['r'])) == 32:
+                shl.append((j, S(b.operand_term(st['rv']['l']))))
+    ctx.check('from_seconds|shift-sites', len(shl) == 1, 'shift-by-32 sites in from_seconds: %d' % len(shl), sample=[v for _, v in shl])
+    for j, v in shl:
+        I = '^' + re.escape(v) + '$'
+        fits = fact_is(r'^num::try_from\(%s\)$' % re.escape(v), 'Ok')
+        hi = any_of(fact_cmp('Le', I, r'^(MAX=)?2147483647$'), fact_cmp('Lt', I, r'^2147483648$'))
+        lo = any_of(fact_cmp('Ge', I, r'^(MIN=)?-2147483648$'), fact_cmp('Gt', I, r'^-2147483649$'))
+        ok = b.must_pass(j, fits) or (b.must_pass(j, hi) and b.must_pass(j, lo))
+        ctx.check('from_seconds|shift-only-when-seconds-fit-i32', ok, 'whole seconds `%s` are shifted into the upper 32 bits without a guard proving they fit an i32 (guards: %s): '
+                  'a value at the boundary wraps into the sign bit instead of saturating' % (v[:60], guards_S(b, j)[-3:]), sample=guards_S(b, j)[-3:])
+    lit = one(b.aggregates(r'NtpDuration$'), 'NtpDuration literal in from_seconds')
+    v = S(b.rvalue_term(lit.data['rv']))
+    ctx.check('from_seconds|saturates', 'MAX=9223372036854775807' in v and 'MIN=-9223372036854775808' in v, 'from_seconds result %s' % v[-120:], sample=v[-100:])
+
+
 def r4(ctx):
     ctx.rule('C32-R4', 'wire formats: NtpDuration::from_bits_short / from_bits_time32 read an unsigned u32 and shift left by the amount to_bits_short / '
              'to_bits_time32 shift right (16 / 4), so every encodable non-negative duration decodes to within one unit and no wire value decodes to a '
              'negative duration (which the encoders would refuse with a panic); NtpTimestamp::{from_bits,to_bits} are the 64 bits as they are')
     from rules import C24
     C24.wire_codecs(ctx)
+    seconds_saturation(ctx)
 
 
 RULES = [r1, r2, r3, r4]
-FLOORS = {'C32-R1': 60, 'C32-R2': 3, 'C32-R3': 1, 'C32-R4': 5}
+FLOORS = {'C32-R1': 60, 'C32-R2': 3, 'C32-R3': 1, 'C32-R4': 8}
